@@ -98,6 +98,23 @@ theorem final_within_tolerance_or_below_min_partial {K : Type} [Field K] [Linear
     (r.1 = Outcome.minInc → r.2.1.inc < cfg.minInc) :=
   final_partial_aux cfg h env fuel
 
+/-- A finished analysis ends with a last reported load factor in the window `(1 - 1/1000, 1]`: never beyond full load,
+and short of it by less than the finish tolerance (the sharp form of the known finding `C09-finish-within-1e-3`). -/
+theorem finished_last_factor_window {K : Type} [Field K] [LinearOrder K] [IsStrictOrderedRing K]
+    (cfg : Cfg K) (h : Admissible cfg) (env : Env K) (fuel : Nat)
+    (hf : (solverNR cfg env fuel).1 = Outcome.finished) :
+    ∃ t c, (reported (solverNR cfg env fuel)).getLast? = some (t, c) ∧ 1 - 1 / 1000 < t ∧ t ≤ 1 := by
+  obtain ⟨t, c, hl, ha⟩ := (final_within_tolerance_or_below_min_partial cfg h env fuel).1 hf
+  have hmem : t ∈ (reported (solverNR cfg env fuel)).map Prod.fst :=
+    List.mem_map.2 ⟨(t, c), List.mem_of_getLast? hl, rfl⟩
+  have h1 := ((reported_increasing_in_unit_interval cfg h env fuel).2 t hmem).2
+  refine ⟨t, c, hl, ?_, h1⟩
+  unfold absK at ha
+  split at ha
+  · linarith
+  · have : (0:K) ≤ t - 1 := not_lt.1 ‹_›
+    have : (0:K) < 1 / 1000 := by norm_num
+    linarith
 /-- Counter-example to "the last load factor equals 1": a *linear* problem (every step converges at its
 second iteration) with `initialInc = maxInc = 0.3333` finishes with last load factor `0.9999`. -/
 theorem final_not_one_counterexample :
